@@ -32,6 +32,13 @@ def vg(src, qs=2, ts=8, name="vg", **kw):
     return d
 
 
+def dbg(src, qs=4, ts=8, name="assert", **kw):
+    """the same harness against a library compiled without -DNDEBUG: assertions are active, as in the project's default (debug) build"""
+    d = dict(name=name, sources=src, lib="assert", quick=dict(shards=qs), thorough=dict(shards=ts))
+    d.update(kw)
+    return d
+
+
 def rc(name, src, qcases, tcases, qs=4, ts=16, max_size=100, **kw):
     d = dict(name=name, sources=src, rapidcheck=True, link=RC,
              quick=dict(shards=qs, cases=qcases, max_size=max_size),
@@ -49,7 +56,7 @@ PROPS = {
         assumptions=COMMON_ASSUME,
         targets=[
             enum("enum", ["props/C18_enum.cpp"], qs=8, ts=16),
-            vg(["props/C18_enum.cpp"]),
+            vg(["props/C18_enum.cpp"]), dbg(["props/C18_enum.cpp"], cxxflags=["-DVP_LIGHT"]), enum("freestanding", ["props/C18_enum.cpp"], qs=4, ts=8, lib="freestanding", cxxflags=["-DVP_LIGHT"]),
             rc("rc", ["props/C18_rc.cpp"], 400, 6000, qs=4, ts=16),
         ],
     ),
@@ -61,7 +68,7 @@ PROPS = {
         assumptions=COMMON_ASSUME,
         targets=[
             enum("enum", ["props/C19_enum.cpp", "shims/rings.c"], qs=12, ts=16),
-            vg(["props/C19_enum.cpp", "shims/rings.c"]),
+            vg(["props/C19_enum.cpp", "shims/rings.c"]), dbg(["props/C19_enum.cpp", "shims/rings.c"]),
             rc("rc", ["props/C19_rc.cpp", "shims/rings.c"], 300, 6000, qs=4, ts=16),
         ],
     ),
@@ -73,7 +80,7 @@ PROPS = {
         assumptions=COMMON_ASSUME,
         targets=[
             enum("enum", ["props/C16_enum.cpp"], qs=8, ts=16),
-            vg(["props/C16_enum.cpp"]),
+            vg(["props/C16_enum.cpp"]), dbg(["props/C16_enum.cpp"]),
             enum("fast", ["props/C16_enum.cpp"], qs=0, ts=16, lib="fast", cxxflags=["-DVP_FAST", "-O2"]),
         ],
     ),
@@ -85,7 +92,7 @@ PROPS = {
         assumptions=COMMON_ASSUME + ["buffers are presented with used == size, so 'end of the buffer' is unambiguous"],
         targets=[
             enum("enum", ["props/C14_enum.cpp"], qs=12, ts=16),
-            vg(["props/C14_enum.cpp"]),
+            vg(["props/C14_enum.cpp"]), dbg(["props/C14_enum.cpp"]),
             enum("fast", ["props/C14_enum.cpp"], qs=0, ts=16, lib="fast", cxxflags=["-DVP_FAST", "-O2"]),
         ],
     ),
@@ -114,7 +121,7 @@ PROPS = {
              "boundaries, garbage prefix + delimiter + 3 frames, error injection at every position; non-trivial = payload containing END or ESC, or a garbage prefix that leaves "
              "the decoder in a non-initial state (ends in ESC, invalid escape, no start octet); distinct by string",
         assumptions=COMMON_ASSUME + ["resynchronisation oracle: delivered frames are attributed by the source offset at which the decode call ends (DESIGN section 3)"],
-        targets=[enum("enum", ["props/C12_enum.cpp"], qs=12, ts=16), vg(["props/C12_enum.cpp"])],
+        targets=[enum("enum", ["props/C12_enum.cpp"], qs=12, ts=16), vg(["props/C12_enum.cpp"]), dbg(["props/C12_enum.cpp"], cxxflags=["-DVP_LIGHT"])],
     ),
     "C17": dict(
         level="exploration",
@@ -123,7 +130,7 @@ PROPS = {
              "aux region); non-trivial = a script with a partial transfer or interruption before completion, or mixed octet/chunk endpoints; distinct by the serialised case",
         assumptions=COMMON_ASSUME + ["drivers never transfer more than asked; hard errors are sticky; transient 0/EINTR/EAGAIN results are only generated for the chunk API "
                                      "(the per-octet plumbing documents no retry); aux buffers designate the region [offset, used)"],
-        targets=[enum("enum", ["props/C17_enum.cpp"], qs=12, ts=16), enum("lib", ["props/C17_lib_enum.cpp"], qs=8, ts=16), vg(["props/C17_enum.cpp"]), vg(["props/C17_lib_enum.cpp"], name="vg-lib")],
+        targets=[enum("enum", ["props/C17_enum.cpp"], qs=12, ts=16), enum("lib", ["props/C17_lib_enum.cpp"], qs=8, ts=16), vg(["props/C17_enum.cpp"]), vg(["props/C17_lib_enum.cpp"], name="vg-lib"), dbg(["props/C17_enum.cpp"]), dbg(["props/C17_lib_enum.cpp"], name="assert-lib")],
     ),
     "C13": dict(
         level="exploration",
@@ -132,7 +139,7 @@ PROPS = {
              "for the decoders, judged by reference prefix encoders and the designated octets; non-trivial = a buffer with offset > 0 and free space, a chunk list with an empty chunk, "
              "a fragmentation that splits the prefix, a pre-filled destination, or a length >= 128 / over the maximum; distinct by the serialised case",
         assumptions=COMMON_ASSUME + ["payload lengths >= 1 (the property's range); zero-length designations are counted as don't-care"],
-        targets=[enum("enum", ["props/C13_enum.cpp"], qs=12, ts=16), vg(["props/C13_enum.cpp"])],
+        targets=[enum("enum", ["props/C13_enum.cpp"], qs=12, ts=16), vg(["props/C13_enum.cpp"]), dbg(["props/C13_enum.cpp"])],
     ),
     "C10": dict(
         level="exploration",
@@ -141,7 +148,7 @@ PROPS = {
              "store/fetch incl. refused and overflow pairs, every single-octet alteration, reset; oracle = model image + reference checksum over the whole image + access log; "
              "non-trivial = aux buffer smaller than the data or non-zero placement; distinct by configuration",
         assumptions=COMMON_ASSUME + ["the medium callbacks behave (full transfers) in C10; faults are C11's subject"],
-        targets=[enum("enum", ["props/C10_enum.cpp"], qs=12, ts=16), vg(["props/C10_enum.cpp"])],
+        targets=[enum("enum", ["props/C10_enum.cpp"], qs=12, ts=16), vg(["props/C10_enum.cpp"]), dbg(["props/C10_enum.cpp"])],
     ),
     "C11": dict(
         level="fault_enumeration",
@@ -150,7 +157,7 @@ PROPS = {
              "before the cut (all whole-write prefixes and all torn positions); non-trivial = a crash point strictly inside the operation or a fault at a call index other than the first; "
              "distinct by the serialised case",
         assumptions=COMMON_ASSUME + ["a torn write leaves a prefix of the write on the medium (octet granularity); one fault per operation"],
-        targets=[enum("enum", ["props/C11_enum.cpp"], qs=12, ts=16), vg(["props/C11_enum.cpp"])],
+        targets=[enum("enum", ["props/C11_enum.cpp"], qs=12, ts=16), vg(["props/C11_enum.cpp"]), dbg(["props/C11_enum.cpp"])],
     ),
     "C20": dict(
         level="exploration",
@@ -162,7 +169,7 @@ PROPS = {
                                      "are only checked for memory safety, termination and leaks"],
         targets=[
             enum("enum", ["props/C20_enum.cpp"], qs=12, ts=16, extra_objs=["sx_ledger.o"]),
-            vg(["props/C20_enum.cpp"], extra_objs=["sx_ledger.o"]),
+            vg(["props/C20_enum.cpp"], extra_objs=["sx_ledger.o"]), dbg(["props/C20_enum.cpp"], extra_objs=["sx_ledger.o"]),
             rc("rc", ["props/C20_rc.cpp"], 1500, 30000, qs=4, ts=16, max_size=200, extra_objs=["sx_ledger.o"]),
             dict(name="fuzz", sources=["props/C20_fuzz.cpp"], fuzz=True, lib="fuzz", corpus="C20", dict="corpus/C20.dict", max_len=128, fuzz_args=["-only_ascii=1"], extra_objs=["sx_ledger.o"],
                  quick=dict(shards=4, runs=150000), thorough=dict(shards=16, runs=4000000, max_total_time=240)),
@@ -175,7 +182,7 @@ PROPS = {
              "serialisation in the table's byte order, bit-identical read-back, storage unchanged on refusal); non-trivial = a refused set, a set exactly at a constraint bound, "
              "a big-endian or callback-backed table, or a one-past-the-end handle; distinct by (table, handle, value, operation)",
         assumptions=COMMON_ASSUME + ["areas always have a read callback; the unchecked variant only receives correctly typed values (the property's domain)"],
-        targets=[enum("enum", ["props/C01_enum.cpp"], qs=12, ts=16), vg(["props/C01_enum.cpp"])],
+        targets=[enum("enum", ["props/C01_enum.cpp"], qs=12, ts=16), vg(["props/C01_enum.cpp"]), dbg(["props/C01_enum.cpp"]), enum("noswap", ["props/C01_enum.cpp"], qs=4, ts=8, lib="noswap", noswap=True)],
     ),
     "C02": dict(
         level="exploration",
@@ -184,7 +191,7 @@ PROPS = {
              "word patterns, applied as an evolving history; non-trivial = a window that partially overlaps a register while carrying a bound+-1 / non-finite pattern, or that spans "
              "two areas or a hole with a non-identity pattern; distinct by the serialised case",
         assumptions=COMMON_ASSUME + ["when several failure classes are present any of them may be reported, but with that class' first address inside the request"],
-        targets=[enum("enum", ["props/C02_enum.cpp"], qs=12, ts=16), vg(["props/C02_enum.cpp"])],
+        targets=[enum("enum", ["props/C02_enum.cpp"], qs=12, ts=16), vg(["props/C02_enum.cpp"]), dbg(["props/C02_enum.cpp"])],
     ),
     "C03": dict(
         level="exploration",
@@ -193,7 +200,7 @@ PROPS = {
              "a read that starts mid-area in a write-only area or crosses an area edge, or an iteration whose start lies in a gap/hole/empty area or strictly inside a multi-word register; "
              "distinct by (table, window)",
         assumptions=COMMON_ASSUME + ["address windows never wrap around 2^32"],
-        targets=[enum("enum", ["props/C03_enum.cpp"], qs=12, ts=16), vg(["props/C03_enum.cpp"])],
+        targets=[enum("enum", ["props/C03_enum.cpp"], qs=12, ts=16), vg(["props/C03_enum.cpp"]), dbg(["props/C03_enum.cpp"])],
     ),
     "C04": dict(
         level="exploration",
@@ -202,7 +209,7 @@ PROPS = {
              "rule must be violated and carry the first index of that rule), post-conditions after success, UNINITIALISED after failure; non-trivial = a one-step perturbation that yields "
              "at most one violation, or a grid description with exactly one violation; distinct by description",
         assumptions=COMMON_ASSUME + ["with several violated rules any of them may be reported (with its own first index)"],
-        targets=[enum("enum", ["props/C04_enum.cpp"], qs=12, ts=16), vg(["props/C04_enum.cpp"])],
+        targets=[enum("enum", ["props/C04_enum.cpp"], qs=12, ts=16), vg(["props/C04_enum.cpp"]), dbg(["props/C04_enum.cpp"])],
     ),
     "C05": dict(
         level="exploration",
@@ -210,7 +217,7 @@ PROPS = {
         rule="cases are operation histories (up to 400 steps) on generated tables, executed step by step against the flat model; non-trivial = a history that contains a refused operation "
              "after at least one accepted block write, or a corrupt..sanitise pair that resets at least one register and keeps at least one; distinct by the serialised history",
         assumptions=COMMON_ASSUME + ["all areas of the generated tables load defaults (so the invariant holds initially); tables with always-fail registers get no sanitise/corrupt steps (the property's restriction)"],
-        targets=[rc("rc", ["props/C05_rc.cpp"], 600, 20000, qs=8, ts=16, max_size=100)],
+        targets=[rc("rc", ["props/C05_rc.cpp"], 600, 20000, qs=8, ts=16, max_size=100), rc("rc-assert", ["props/C05_rc.cpp"], 300, 6000, qs=4, ts=8, max_size=100, lib="assert")],
     ),
     "C08": dict(
         level="exploration",
@@ -219,7 +226,7 @@ PROPS = {
              "doc/regp.txt + the library's own receiver reports identical fields; non-trivial = a frame with payload (rich in SLIP control octets) or a non-zero response code, or a length "
              "across a varint boundary; distinct by the serialised case",
         assumptions=COMMON_ASSUME + ["the reference encoder follows doc/regp.txt; where the document is silent (block-size field of payload-less responses) it follows the library's emitter"],
-        targets=[enum("enum", ["props/C08_enum.cpp"], qs=8, ts=16), vg(["props/C08_enum.cpp"])],
+        targets=[enum("enum", ["props/C08_enum.cpp"], qs=8, ts=16), vg(["props/C08_enum.cpp"]), dbg(["props/C08_enum.cpp"]), enum("noswap", ["props/C08_enum.cpp"], qs=4, ts=8, lib="noswap", noswap=True)],
     ),
     "C06": dict(
         level="exploration",
@@ -228,7 +235,7 @@ PROPS = {
              "decoder on the reply octets and the allocation ledger; non-trivial = a request with block size >= 2, a non-ACK back-end verdict or a word-size mismatch; distinct by frame "
              "octets x verdict x configuration",
         assumptions=COMMON_ASSUME + ["block sizes stay within the receive block's true capacity (beyond is C09's subject); return codes of regp_process are not asserted"],
-        targets=[rc("rc", ["props/C06_rc.cpp"], 2500, 100000, qs=8, ts=16, max_size=100)],
+        targets=[rc("rc", ["props/C06_rc.cpp"], 2500, 100000, qs=8, ts=16, max_size=100), rc("rc-assert", ["props/C06_rc.cpp"], 1200, 30000, qs=4, ts=8, max_size=100, lib="assert")],
     ),
     "C07": dict(
         level="exploration",
@@ -239,7 +246,7 @@ PROPS = {
         assumptions=COMMON_ASSUME + ["a frame that declares a payload checksum but carries no payload, and a payload-less write response with non-zero block size, are don't-care (document silent)"],
         targets=[
             enum("enum", ["props/C07_enum.cpp"], qs=12, ts=16),
-            vg(["props/C07_enum.cpp"]),
+            vg(["props/C07_enum.cpp"]), dbg(["props/C07_enum.cpp"], cxxflags=["-DVP_LIGHT"]),
             dict(name="fuzz", sources=["props/C09_fuzz.cpp"], fuzz=True, lib="fuzz", corpus="C09", max_len=600,
                  quick=dict(shards=2, runs=40000), thorough=dict(shards=8, runs=2000000, max_total_time=240)),
         ],
@@ -254,7 +261,7 @@ PROPS = {
                                      "replies to over-long or unallocatable frames that are not well-formed requests are don't-care"],
         targets=[
             enum("enum", ["props/C09_enum.cpp"], qs=12, ts=16),
-            vg(["props/C09_enum.cpp"]),
+            vg(["props/C09_enum.cpp"]), dbg(["props/C09_enum.cpp"]),
             dict(name="fuzz", sources=["props/C09_fuzz.cpp"], fuzz=True, lib="fuzz", corpus="C09", max_len=1400,
                  quick=dict(shards=4, runs=60000), thorough=dict(shards=16, runs=3000000, max_total_time=300)),
         ],
